@@ -375,3 +375,10 @@ def harness_call(harness_file, call):
     from engine import xh
     from engine.common import VERIF
     return xh.eval_call(os.path.join(VERIF, 'harness', harness_file), call)[2]
+
+
+def fs_check(check_name, root, params, slots):
+    """Run one file-system check function (engine/fscheck.py) against a real materialised tree."""
+    from engine import fscheck
+    res = getattr(fscheck, check_name)(root, *params, slots=slots)
+    return res['viol']
